@@ -29,7 +29,7 @@ func (propC03) Rule() string {
 }
 func (propC03) Runs(tier string) int {
 	if tier == "thorough" {
-		return 500000
+		return 3000000
 	}
 	return 50000
 }
